@@ -86,7 +86,7 @@ def _dump(args):
     return gid, g
 
 
-GROUP = 4      # configurations per TLC run (one single-worker JVM dumps the edges of up to GROUP families)
+GROUP = 3      # configurations per TLC run (one single-worker JVM dumps the edges of up to GROUP families)
 
 
 def build_graphs(chk, plan):
